@@ -64,7 +64,7 @@ def run(res, tier):
     import c13 as _c13
     _sub13 = tbf.Result("C13")
     _c13.run(_sub13, "quick")
-    tbf.reexport(res, _sub13, ("C13.2",), "C17.preserved-results", min_instances=2)
+    tbf.reexport(res, _sub13, ("C13.2", "C13.6"), "C17.preserved-results", min_instances=2)
     # the target/source tree only forwards
     for q, want in (("TbfTreeTsm::getAllParticlesDataSource", "treeSource.getAllParticlesData"), ("TbfTreeTsm::getAllParticlesDataTarget", "treeTarget.getAllParticlesData"),
                     ("TbfTreeTsm::getAllParticlesRhsTarget", "treeTarget.getAllParticlesRhs")):
